@@ -15,13 +15,14 @@ func init() {
 	register(&Check{
 		ID:  "C22",
 		Run: runC22,
-		Explanation: "Decides that the encrypting and decrypting siblings cover the same things: (R1) encryptDeepObject and decryptDeepObject handle the same string-bearing kinds {Dict, Array, StringLiteral, HexLiteral} (encrypt additionally StreamDict, whose dictionary the reader decrypts as a Dict), and every call site of either passes a value whose static type is a handled kind (a *StreamDict silently does nothing); (R2) encryptDict and decryptDict compare keys/values against the same constant set (signature /Contents exemption), so what one side skips the other skips too; (R3) AES padding: the decrypter's strip predicate on the last plaintext byte accepts every pad length the encrypter can emit — evaluated on the comparison's operator and constant for 1..16 (a '<16' test, which leaves a full padding block in place for block-aligned input, is rejected) — and the encrypter's full-block pad constant is 16; (R4) encryptBytes/decryptBytes and encryptStream/decryptStream choose between the per-object key (decryptKey) and the file key under the same revision test (same constants compared with r) and both sides call decryptKey. (R5) in the reader's saveDecodedStreamContent every path to the decoder or to a success return passes decryptStreamContent, the len(sd.Raw) == 0 edge, or exactly the writer's exemption (len(FilterPipeline) == 1 and FilterPipeline[0].Name == \"Crypt\"): a wider exemption leaves streams the writer encrypted as ciphertext; (R6) the generation column (%05d) of every cross-reference table line is a load of XRefTableEntry.Generation on every path — the reader derives the RC4/AES-128 object key from the xref generation, the writer from the entry's. NOT decided: cipher correctness, key derivation (C24), permissions equality.",
+		Explanation: "Decides that the encrypting and decrypting siblings cover the same things: (R1) encryptDeepObject and decryptDeepObject handle the same string-bearing kinds {Dict, Array, StringLiteral, HexLiteral} (encrypt additionally StreamDict, whose dictionary the reader decrypts as a Dict), and every call site of either passes a value whose static type is a handled kind (a *StreamDict silently does nothing); (R2) encryptDict and decryptDict compare keys/values against the same constant set (signature /Contents exemption), so what one side skips the other skips too; (R3) AES padding: the decrypter's strip predicate on the last plaintext byte accepts every pad length the encrypter can emit — evaluated on the comparison's operator and constant for 1..16 (a '<16' test, which leaves a full padding block in place for block-aligned input, is rejected) — and the encrypter's full-block pad constant is 16; (R4) encryptBytes/decryptBytes and encryptStream/decryptStream choose between the per-object key (decryptKey) and the file key under the same revision test (same constants compared with r) and both sides call decryptKey. (R5) in the reader's saveDecodedStreamContent every path to the decoder or to a success return passes decryptStreamContent, the len(sd.Raw) == 0 edge, or exactly the writer's exemption (len(FilterPipeline) == 1 and FilterPipeline[0].Name == \"Crypt\"): a wider exemption leaves streams the writer encrypted as ciphertext; (R6) the generation column (%05d) of every cross-reference table line is a load of XRefTableEntry.Generation on every path — the reader derives the RC4/AES-128 object key from the xref generation, the writer from the entry's. (R7) in encryptDeepObject and decryptDeepObject no path round the array-element loop avoids the recursive call: every element is descended into on both sides (a kind filter on one side leaves nested strings transformed in one direction). NOT decided: cipher correctness, key derivation (C24), permissions equality.",
 		Rules: []string{
 			"C22.R1 TABLE siblings: kinds handled by encrypt/decryptDeepObject; call-site argument types",
 			"C22.R2 TABLE siblings: exemption constants of encryptDict/decryptDict",
 			"C22.R3 TABLE siblings: AES pad emitted vs pad stripped",
 			"C22.R4 TABLE siblings: key selection",
 			"C22.R6 flow: the generation column of cross-reference table lines is the entry's Generation (the reader's key input)",
+			"C22.R7 MPT: every array element is handed to the recursive encrypt/decrypt call",
 			"C22.R5 MPT: the reader decrypts a stream unless the writer's exact exemption holds (only filter is /Crypt) or it is empty",
 		},
 		Assumptions: []string{"crypto/aes, crypto/rc4 are inverse for equal keys"},
@@ -90,6 +91,8 @@ func runC22(c *Ctx) {
 	checkReaderStreamExemptions(c)
 	r.MinInst["C22.R6"] = 2
 	checkXRefGeneration(c)
+	r.MinInst["C22.R7"] = 2
+	checkDeepDescentUnfiltered(c)
 	enc, dec := p.Func("pkg/pdfcpu.encryptDeepObject"), p.Func("pkg/pdfcpu.decryptDeepObject")
 	if enc == nil || dec == nil {
 		r.Bad("C22.R1", "pkg/pdfcpu.encryptDeepObject", "anchor", "", "UNRESOLVED-ANCHOR")
@@ -464,6 +467,77 @@ func unwrapIface(v ssa.Value) ssa.Value {
 			v = x.X
 		default:
 			return v
+		}
+	}
+}
+
+// ---------------- C22.R7 (round 3 of seeding): array elements are never skipped ----------------
+
+// checkDeepDescentUnfiltered: in encryptDeepObject and decryptDeepObject the loop over an array's elements
+// hands EVERY element to the recursive call: no path from the loop head back to the loop head avoids it.
+// A filter on the element's kind on one side only ("numbers and names carry nothing to decrypt") leaves the
+// strings of nested arrays transformed in one direction.
+func checkDeepDescentUnfiltered(c *Ctx) {
+	p, r := c.P, c.R
+	for _, fid := range []string{"pkg/pdfcpu.encryptDeepObject", "pkg/pdfcpu.decryptDeepObject"} {
+		fn := p.Func(fid)
+		if fn == nil {
+			r.Bad("C22.R7", fid, "anchor", "", "UNRESOLVED-ANCHOR")
+			continue
+		}
+		n := 0
+		for _, l := range naturalLoops(fn) {
+			callBlocks := map[*ssa.BasicBlock]bool{}
+			var pos token.Pos
+			for b := range l.blocks {
+				for _, in := range b.Instrs {
+					if call, ok := in.(*ssa.Call); ok {
+						if callee := staticCallee(call); callee != nil && unwrapSynthetic(callee) == fn {
+							callBlocks[b] = true
+							pos = call.Pos()
+						}
+					}
+				}
+			}
+			if len(callBlocks) == 0 {
+				continue
+			}
+			n++
+			construct := fmt.Sprintf("element loop#%d", n)
+			// can the header be reached again from its in-loop successors without entering a call block?
+			seen := map[*ssa.BasicBlock]bool{}
+			var stack []*ssa.BasicBlock
+			for _, s := range l.header.Succs {
+				if l.blocks[s] {
+					stack = append(stack, s)
+				}
+			}
+			skips := false
+			for len(stack) > 0 && !skips {
+				b := stack[len(stack)-1]
+				stack = stack[:len(stack)-1]
+				if seen[b] || callBlocks[b] {
+					continue
+				}
+				seen[b] = true
+				for _, s := range b.Succs {
+					if s == l.header {
+						skips = true
+						break
+					}
+					if l.blocks[s] {
+						stack = append(stack, s)
+					}
+				}
+			}
+			if skips {
+				r.Bad("C22.R7", fid, construct, p.Pos(pos), "an iteration of the element loop can finish without the recursive call: some elements (by kind, position or value) are not descended into on this side, while the other direction handles every element — strings below such an element come back as ciphertext (or are written as plaintext)")
+			} else {
+				r.OK("C22.R7", fid, construct, p.Pos(pos), "every iteration hands its element to the recursive call (no path round the loop avoids it)", true)
+			}
+		}
+		if n == 0 {
+			r.Bad("C22.R7", fid, "element loop", p.Pos(fn.Pos()), "UNRESOLVED-ANCHOR: no loop with a recursive call found")
 		}
 	}
 }
